@@ -10,7 +10,7 @@ from ..tok import NONE
 
 DEFECTS = ["tc-special-set", "tc-dialog-no-close-p", "tc-endbr-keeps-frameset-ok", "tc-afterbody-space",
            "tc-command-void-in-head", "tc-chars-token-granularity", "tc-textarea-stays-in-body",
-           "tc-cell-caption-ws-base", "tc-intable-other-drops-reprocess"]
+           "tc-cell-caption-ws-base", "tc-intable-other-drops-reprocess", "tc-frameset-pop-name-only"]
 TOK_DEFECTS = ["tok-commentstart-nul-stays", "tok-commentstartdash-nul-stays", "tok-cdata-nul-replaced"]
 
 
@@ -40,8 +40,13 @@ def _replay(rec):
     return out
 
 
-def run_theme(ctx, theme, containers, scripting, n, listed, tag):
-    r = ctx.tlc("MC_Tree", cfg(theme, containers, scripting, n, True, listed), tag, keep_records=False, heap="16g")
+def run_theme(ctx, theme, containers, scripting, n, listed, tag, simulate=None):
+    """simulate = (num behaviours, depth): TLC -simulate draws random fragment strings much longer than the exhaustive bound"""
+    if simulate:
+        r = ctx.tlc("MC_Tree", cfg(theme, containers, scripting, simulate[1], True, listed), tag, keep_records=False, heap="16g",
+                    simulate="num=%d" % simulate[0], depth=simulate[1] + 1, seed=ctx.seed, workers=8)
+    else:
+        r = ctx.tlc("MC_Tree", cfg(theme, containers, scripting, n, True, listed), tag, keep_records=False, heap="16g")
     if r.violated:
         ctx.violation("theorem %s fails on the tree-construction specification [%s]" % (r.violated, tag), {"tlc": r.stdout_path})
         return 0
@@ -75,7 +80,7 @@ WITNESS = [  # inputs that exhibit each named deviation (document mode unless a 
     ("<b><main>x</b>y", None), ("<p><dialog>x", None), ("</br><frameset>", None), ("<p><b></p></body> y", None),
     ("<command>x", None), ("<frameset>x y</frameset>", None), ("<p><b></p><textarea>x", None),
     ("<table><td><p><b></p> y", None), ("<table><button><button>x", None), ("<frameset></frameset><noframes>", None),
-    ("<isindex action=a prompt=b name=c>", None), ("<table><pre>\nx", None), ("x y", "colgroup"),
+    ("<svg><html><desc><frameset>", None), ("<isindex action=a prompt=b name=c>", None), ("<table><pre>\nx", None), ("x y", "colgroup"),
 ]
 
 
@@ -299,6 +304,10 @@ def run(ctx):
     for theme, cont, scr, n in plan:
         run_theme(ctx, theme, cont, scr, n, spec_listed, "mc-%s-%s-%d-%d" % (theme, cont, int(scr), n))
     ctx.exhaustive = True
+    # random deep behaviours (TLC -simulate) over the union alphabet and two themes
+    for theme, cont, num, depth in (("cover", "doc", 400 if q else 6000, 9), ("table", "common", 200 if q else 3000, 8),
+                                    ("foreign", "doc", 200 if q else 3000, 8)):
+        run_theme(ctx, theme, cont, False, depth, spec_listed, "sim-%s-%s" % (theme, cont), simulate=(num, depth))
     # transition cover (spec-derived tests, judged by TLC with snapshots)
     cjobs = cover_tests(ctx, spec_listed)
     ctx.notes["cover_tests"] = len(cjobs)
